@@ -16,12 +16,20 @@
      process_started                -> it started, or a stop was requested for it, or it entered onProcessEnd.
    holds_C01 cs evs = true means this check succeeded at every launch in the history evs.
 
-   WHAT IS PROVED.  C01_main_partial: every history accepted by the model Sup (all configurations with unique
-   dependency names per process, all interleavings, unbounded length) satisfies the monitor, PROVIDED the
-   history avoids three scheduling patterns (decidable predicate sched_ok_C01, Sup/LemC01.v: g_unreg, g_newer,
-   g_endov) in which the monitor, as written, is stricter than the code.  NO known-finding window flag
-   (w_commit, w_dup, w_zombie, ...) is needed.  C01_refuted: without that hypothesis the statement is false of
-   the model (machine-checked witness that goes through none of the known windows). *)
+   WHAT IS PROVED (hardened model: an instance is created, set Pending, registered, spawned and begun in program
+   order by ONE thread).  C01_main_partial: every history accepted by the model Sup (all configurations with
+   unique dependency names per process, all interleavings, unbounded length) satisfies the monitor, PROVIDED the
+   history avoids three scheduling patterns (decidable predicate sched_ok_C01, Sup/LemC01.v):
+     g_unreg : an instance of process n is created while an instance of a process that n DEPENDS ON is between
+               NewProcess and addRunningProcess (two creating requests race; impossible inside Run()'s loop);
+     g_newer : a dependent resolves a dependency name to an instance not older than itself although an older
+               instance of that name exists (the dependency was restarted between creation and lookup);
+     g_endov : a status write for an instance differs from the latest onProcessEnd entered for it while the
+               observer has not seen it end (two overlapping onProcessEnd executions);
+   in these the monitor, as written, is stricter than the code.  NO known-finding window flag (w_commit, w_dup,
+   w_zombie, ...) is needed.  C01_refuted / C01_refuted_newer_instance: without that hypothesis the statement
+   is false of the (hardened) model - machine-checked witnesses through none of the known windows.  The
+   witnesses of the earlier, looser model are now REJECTED by the model (Examples C01_old_witness_rejected and C01_old_witness_rejected_newer). *)
 From Coq Require Import List ZArith NArith Bool.
 From PC.Base Require Import Assoc.
 From PC.Sup Require Import Model Monitors Sim LemC01 RelC01.
@@ -50,13 +58,17 @@ Print Assumptions C01_declarative.
 
 (* ---- the hypothesis sched_ok_C01 is needed: the unrestricted statement is false of the model ---------------- *)
 Definition conf0 (ds : list (name * cond)) : pconf := mkConf ds PNo 0 0 false false false false false false false.
-Definition cs_ref : amap pconf := [(1%N, conf0 []); (2%N, conf0 [(1%N, CCompleted)])].
-(* instance 10 of process 1 is created but not yet registered when instance 20 of process 2 (which depends on
-   process 1) is created, looks process 1 up, finds nothing and launches *)
+(* process 1 is disabled (started on request), process 2 depends on process 1 *)
+Definition cs_ref : amap pconf :=
+  [(1%N, mkConf [] PNo 0 0 false false false false false false true); (2%N, conf0 [(1%N, CCompleted)])].
+(* StartProcess(1) (thread 7) has created instance 10 but not yet registered it when Run() (thread 0) creates,
+   registers and spawns instance 20 of process 2; 20 looks process 1 up, finds nothing and launches *)
 Definition evs_ref : list (tid * event) :=
-  [ (0, ENewInst 10 1); (0, ENewInst 20 2); (5, EBegin 20);
-    (5, EDoneGet 1 None); (5, ELookupMid 1); (5, ERegGet 1 None); (5, EDoneGet 1 None); (5, EDepWait 1 None);
-    (5, ERunChecked false); (5, EStarted); (5, EState 20 SRunning); (5, ELaunch true) ]%N.
+  [ (7, EApiBegin (OpStart 1)); (7, ERegGet 1 None); (7, EStartChecked 1 false); (7, ENewInst 10 1);
+    (0, EApiBegin OpRun); (0, ENewInst 20 2); (0, EState 20 SPending); (0, ERegAdd 20 2); (0, ESpawn 20 2);
+    (0, ERunSpawned);
+    (5, EBegin 20); (5, EDoneGet 1 None); (5, ELookupMid 1); (5, ERegGet 1 None); (5, EDoneGet 1 None);
+    (5, EDepWait 1 None); (5, ERunChecked false); (5, EStarted); (5, EState 20 SRunning); (5, ELaunch true) ]%N.
 
 Theorem C01_refuted : exists cs ord evs s,
   wf_confs cs = true /\ accept (init cs ord) evs = Some s /\ no_windows cs evs = true /\ holds_C01 cs evs = false.
@@ -67,28 +79,41 @@ Proof.
 Qed.
 Print Assumptions C01_refuted.
 
-(* ... and that history is one that the hypothesis excludes *)
-Example C01_refuted_excluded : sched_ok_C01 cs_ref evs_ref = false.
+(* ... and that history is one that the hypothesis excludes (only g_unreg is set) *)
+Example C01_refuted_excluded : snd (og_final cs_ref evs_ref) = mkG [10%N] true false false.
 Proof. vm_compute. reflexivity. Qed.
 
+(* the witness of the earlier model (one thread without any API call creating both instances, a goroutine that
+   begins without having been registered and spawned) is no longer a behaviour of the model *)
+Definition evs_ref_old : list (tid * event) :=
+  [ (0, ENewInst 10 1); (0, ENewInst 20 2); (5, EBegin 20);
+    (5, EDoneGet 1 None); (5, ELookupMid 1); (5, ERegGet 1 None); (5, EDoneGet 1 None); (5, EDepWait 1 None);
+    (5, ERunChecked false); (5, EStarted); (5, EState 20 SRunning); (5, ELaunch true) ]%N.
+Example C01_old_witness_rejected :
+  accept (init cs_ref false) evs_ref_old = None /\ fst (accept_prefix (init cs_ref false) evs_ref_old 0) = 0.
+Proof. vm_compute. split; reflexivity. Qed.
+
 (* Second witness (finding): the dependency is RESTARTED between the creation of the dependent and its lookup.
-   Process 2 depends on process 1 with process_log_ready.  Instance 10 of process 1 completes without ever
-   printing its ready line and is deregistered; process 1 is started again as instance 11; instance 20 of
-   process 2 (created between 10 and 11) resolves process 1 to the NEWER instance 11, waits for 11's ready line
-   and launches.  The property text is respected (process 1 did print its ready line before the launch), but
-   mon_C01 only accepts instances created before 20 and fails; no known window is involved.  This is the
-   pattern g_newer. *)
+   Process 2 depends on process 1 with process_log_ready.  Run() starts both; instance 10 of process 1 completes
+   without ever printing its ready line and is deregistered; StartProcess(1) starts it again as instance 11;
+   instance 20 of process 2 (created between 10 and 11) resolves process 1 to the NEWER instance 11, waits for
+   11's ready line and launches.  The property text is respected (process 1 did print its ready line before the
+   launch), but mon_C01 only accepts instances created before 20 and fails; no known window is involved.  This
+   is the pattern g_newer. *)
 Definition cs_new : amap pconf :=
   [(1%N, mkConf [] PNo 0 0 false false false true false false false); (2%N, conf0 [(1%N, CLogReady)])].
 Definition evs_new : list (tid * event) :=
-  [ (0, ENewInst 10 1); (0, EState 10 SPending); (0, ERegAdd 10 1); (1, EBegin 10);
-    (1, ERunChecked false); (1, EStarted); (1, EState 10 SRunning); (1, ELaunch true);
-    (0, ENewInst 20 2); (0, ERegAdd 20 2); (2, EBegin 20); (2, EDoneGet 1 None); (2, ELookupMid 1);
+  [ (0, EApiBegin OpRun);
+    (0, ENewInst 10 1); (0, EState 10 SPending); (0, ERegAdd 10 1); (0, ESpawn 10 1);
+    (1, EBegin 10); (1, ERunChecked false); (1, EStarted); (1, EState 10 SRunning); (1, ELaunch true);
+    (0, ENewInst 20 2); (0, EState 20 SPending); (0, ERegAdd 20 2); (0, ESpawn 20 2); (0, ERunSpawned);
+    (2, EBegin 20); (2, EDoneGet 1 None); (2, ELookupMid 1);
     (9, ECmdExit 10 0%Z); (1, EWaitReturn 0%Z); (1, EExitCode 0%Z); (1, ERestartDecision false);
     (1, EProcEnd 10 SCompleted); (1, EState 10 SCompleted); (1, EProcEnded 10 SCompleted); (1, ERunReturned 0%Z);
     (1, EDoneAdd 10); (1, EInstDone); (1, EInstExit); (1, ERegDel 10); (1, EInstGone);
-    (0, ENewInst 11 1); (0, ERegAdd 11 1); (3, EBegin 11); (3, ERunChecked false); (3, EStarted);
-    (3, EState 11 SRunning); (3, ELaunch true);
+    (7, EApiBegin (OpStart 1)); (7, ERegGet 1 None); (7, EStartChecked 1 false);
+    (7, ENewInst 11 1); (7, EState 11 SPending); (7, ERegAdd 11 1); (7, ESpawn 11 1); (7, EApiReturn true);
+    (3, EBegin 11); (3, ERunChecked false); (3, EStarted); (3, EState 11 SRunning); (3, ELaunch true);
     (2, ERegGet 1 (Some 11)); (2, EDepWait 1 (Some 11));
     (9, EOutLine 11 true); (9, ELogReady 11);
     (2, EDepDone 1 true); (2, ERunChecked false); (2, EStarted); (2, EState 20 SRunning); (2, ELaunch true) ]%N.
@@ -96,7 +121,7 @@ Definition evs_new : list (tid * event) :=
 Theorem C01_refuted_newer_instance :
   wf_confs cs_new = true /\ (exists s, accept (init cs_new false) evs_new = Some s) /\
   no_windows cs_new evs_new = true /\ holds_C01 cs_new evs_new = false /\
-  snd (og_final cs_new evs_new) = mkG None false true false.      (* only g_newer is set *)
+  snd (og_final cs_new evs_new) = mkG [] false true false.      (* only g_newer is set *)
 Proof.
   split; [vm_compute; reflexivity|]. split.
   - destruct (accept (init cs_new false) evs_new) as [s|] eqn:E; [eauto|vm_compute in E; discriminate E].
@@ -104,8 +129,31 @@ Proof.
 Qed.
 Print Assumptions C01_refuted_newer_instance.
 
+(* the earlier version of this witness (instances created by a thread that is in no API call) is rejected at
+   its first event *)
+Example C01_old_witness_rejected_newer :
+  accept (init cs_new false) ((0, ENewInst 10 1) :: (0, EState 10 SPending) :: (0, ERegAdd 10 1) :: (1, EBegin 10) :: nil)%N = None.
+Proof. vm_compute. reflexivity. Qed.
+
+(* creations of UNRELATED processes may overlap without leaving the hypothesis (the earlier, coarser g_unreg
+   excluded this history): StartProcess(1) has created instance 10 while Run() creates and launches process 3 *)
+Definition cs_ovl : amap pconf := [(1%N, mkConf [] PNo 0 0 false false false false false false true); (3%N, conf0 [])].
+Definition evs_ovl : list (tid * event) :=
+  [ (7, EApiBegin (OpStart 1)); (7, ERegGet 1 None); (7, EStartChecked 1 false); (7, ENewInst 10 1);
+    (0, EApiBegin OpRun); (0, ENewInst 30 3); (0, EState 30 SPending); (0, ERegAdd 30 3); (0, ESpawn 30 3);
+    (0, ERunSpawned);
+    (5, EBegin 30); (5, ERunChecked false); (5, EStarted); (5, EState 30 SRunning); (5, ELaunch true);
+    (7, EState 10 SPending); (7, ERegAdd 10 1); (7, ESpawn 10 1); (7, EApiReturn true) ]%N.
+Example C01_example_overlapping_creations :
+  (exists s, accept (init cs_ovl false) evs_ovl = Some s) /\ sched_ok_C01 cs_ovl evs_ovl = true.
+Proof.
+  split; [|vm_compute; reflexivity].
+  destruct (accept (init cs_ovl false) evs_ovl) as [s|] eqn:E; [eauto|vm_compute in E; discriminate E].
+Qed.
+
 (* ---- non-vacuity: a 31-event accepted history that meets all hypotheses; process 2 waits for process 1 to
    complete, process 1 runs and exits with 0, then process 2 is released and launches ------------------------------ *)
+Definition cs_ok : amap pconf := [(1%N, conf0 []); (2%N, conf0 [(1%N, CCompleted)])].
 Definition evs_ok : list (tid * event) :=
   [ (0, EApiBegin OpRun);
     (0, ENewInst 10 1); (0, EState 10 SPending); (0, ERegAdd 10 1); (0, ESpawn 10 1);
@@ -119,13 +167,13 @@ Definition evs_ok : list (tid * event) :=
     (2, EDepDone 1 true); (2, ERunChecked false); (2, EStarted); (2, EState 20 SRunning); (2, ELaunch true) ]%N.
 
 Example C01_example :
-  wf_confs cs_ref = true /\
-  (exists s, accept (init cs_ref false) evs_ok = Some s) /\
-  sched_ok_C01 cs_ref evs_ok = true /\
+  wf_confs cs_ok = true /\
+  (exists s, accept (init cs_ok false) evs_ok = Some s) /\
+  sched_ok_C01 cs_ok evs_ok = true /\
   length evs_ok = 31 /\
-  holds_C01 cs_ref evs_ok = true.
+  holds_C01 cs_ok evs_ok = true.
 Proof.
   split; [vm_compute; reflexivity|]. split.
-  - destruct (accept (init cs_ref false) evs_ok) as [s|] eqn:E; [eauto|vm_compute in E; discriminate E].
+  - destruct (accept (init cs_ok false) evs_ok) as [s|] eqn:E; [eauto|vm_compute in E; discriminate E].
   - repeat split; vm_compute; reflexivity.
 Qed.
